@@ -132,6 +132,8 @@ def generate(seed, tier):
             k["n_max"] = max(k["n_max"], rng.choice([4, 6, 8]))
             k["n_min"] = 3
             k["disc"] = rng.choice([0.3, 0.6, 0.9])
+        if rng.random() < 0.3:
+            k["labels"] = k["labels"][:2] + rng.sample(model.LABELS_HEADRULES, 3)
         k["punct"] = rng.choice([0.0, 0.1, 0.2, 0.5, 1.0])
         k["pair"] = rng.choice([0.0, 0.2, 0.4])
         k["edges"] = rng.choice([model.EDGES, ["HD", "NK", "--"], ["--"]])
